@@ -90,6 +90,8 @@ pub fn show_schemas(r: Result<std::collections::BTreeMap<String, sylvia::schemar
                 "EchoResp" => &sylvia::cw_schema::schema_for!(EchoResp) == s,
                 "RespB" => &sylvia::cw_schema::schema_for!(RespB) == s,
                 "RespC" => &sylvia::cw_schema::schema_for!(RespC) == s,
+                "String" => &sylvia::cw_schema::schema_for!(String) == s,
+                "Binary" => &sylvia::cw_schema::schema_for!(Binary) == s,
                 _ => false,
             };
             format!("{}={}/{}", k, title, same)
@@ -436,8 +438,25 @@ pub fn coins_of(amount: &str) -> Vec<Coin> {
     }
 }
 
-/// addresses replaced by account names / contract slots
+/// addresses replaced by account names / contract slots; a query answered with `Binary` carries the echo base64-encoded, so
+/// the replacement is made inside the decoded text, which is then encoded again
 pub fn canon_addrs(s: &str, contracts: &[Option<Addr>]) -> String {
+    if let Some(rest) = s.strip_prefix("ok \"") {
+        if let Some(end) = rest.find('"') {
+            if let Ok(bin) = Binary::from_base64(&rest[..end]) {
+                if let Ok(txt) = String::from_utf8(bin.to_vec()) {
+                    if txt.starts_with("ran=") {
+                        let inner = canon_plain(&txt, contracts);
+                        return format!("ok \"{}\"{}", Binary::from(inner.into_bytes()).to_base64(), canon_plain(&rest[end + 1..], contracts));
+                    }
+                }
+            }
+        }
+    }
+    canon_plain(s, contracts)
+}
+
+fn canon_plain(s: &str, contracts: &[Option<Addr>]) -> String {
     let mut out = s.to_string();
     for (i, c) in contracts.iter().enumerate() {
         if let Some(a) = c {
